@@ -441,7 +441,12 @@ def bounded(modname, name, n, seed, gen_override=None):
         tries += 1
         try:
             if gen is not None:
-                args = gen(rng)
+                try:
+                    args = gen(rng)
+                except LookupError:
+                    raise
+                except Exception:  # noqa: BLE001  the generator built an invalid object: skip
+                    continue
             else:
                 args = {p: gen_value(rng, types[p]) for p in names}
         except LookupError as ex:
